@@ -37,7 +37,20 @@ def gen_jobs(seed, n):
             if ok:
                 c['fl'][rng.choice(ok)] |= 128
         jobs.append(dict(index=i, case=c, top=rng.random() < 0.5))
+    # very many tasks in one run (queues, counters and displays are exercised far beyond a handful of tasks):
+    # WIDE_N independent tasks of two types on really forked workers, displays off and on
+    for j, top in enumerate((False, True)):
+        jobs.append(dict(index=n + j, case=wide_case(WIDE_N + j, 8), top=top, wide=True))
     return jobs
+
+
+WIDE_N = 640
+
+
+def wide_case(n, mw):
+    return dict(be='fork', mw=mw, cof=1, bust=0, ty=[k % 2 for k in range(n)], mp=[None, 5, 1], ca=[0, 1, 1], fl=[0] * n,
+                kids=[[] for _ in range(n)], shapes=[[] for _ in range(n)], inst=[[k, []] for k in range(n)],
+                req=list(range(n)), pre={}, ctx=0, sched=[])
 
 
 def run_jobs(jobs, workers, timeout):
@@ -185,6 +198,8 @@ def explore(seed, n, workers=12, timeout=300):
         dist[key] = dist.get(key, 0) + 1
         if any(f & 2 for f in case['fl']) and case['be'] != 'serial':
             dist['real_killed_worker'] = dist.get('real_killed_worker', 0) + 1
+        if by[r['index']].get('wide'):
+            dist['real_run_of_%d_tasks' % len(case['ty'])] = 1
         if any(f & 128 for f in case['fl']):
             dist['real_lingering_worker'] = dist.get('real_lingering_worker', 0) + 1
         for pid, vs in monitor(case, r).items():
